@@ -430,7 +430,7 @@ def gen_request(r, scratch, idx, kind=None):
   """A generated program (files on disk under scratch) and its compilable predicates."""
   kind = kind or r.choice(['nonrec', 'nonrec', 'rec', 'rec', 'functor', 'imports', 'imports', 'incant',
                    'needs_incant', 'bad', 'flags', 'dialect_rec', 'typed', 'typed', 'attach_rel',
-                   'combine', 'combine'])
+                   'combine', 'combine', 'duck_stop', 'duck_stop', 'udf'])
   root = None
   flags = None
   bad = False
@@ -456,6 +456,54 @@ def gen_request(r, scratch, idx, kind=None):
       extra = '@Recursive(%s, %d%s);\n' % (name, r.choice([d, -1]) if 'diamond' in mode else d, mode)
     text = '@Engine("%s");\n' % eng + extra + gen.render(p, engine_line=False)
     preds = gen.idb_names(p)
+  elif kind == 'udf':
+    # typed dialects: compiled functions (-->) and user-defined aggregations over semigroups
+    eng = r.choice(['psql', 'psql', 'duckdb', 'bigquery'])
+    names = r.sample(['S', 'Glue', 'Mix', 'Cat', 'Plus', 'Zip', 'W'], r.choice([1, 2, 3]))
+    lines = ['@Engine("%s");' % eng, 'F(x) --> %d * x;' % r.randint(2, 5),
+             'H(x, y) --> x + y * %d;' % r.randint(2, 5)]
+    cols = []
+    if eng == 'psql':
+      for i, nm in enumerate(names):
+        sep = r.choice([':', '+', '-', '/'])
+        lines.append('%s(a, b) --> (if a is null then b else a ++ "%s" ++ b);' % (nm, sep))
+        lines.append('@BareAggregation(Bare%s, semigroup: %s);' % (nm, nm))
+        lines.append('Agg%s(x) = a :- a = Bare%s(x), a ~ %s();' % (nm, nm, nm))
+        cols.append('Agg%s{ c :- c in [ToString(i), "%s"] }' % (nm, 'abc'[i]))
+    lines.append('Test(i, F(i), H(i, 2)%s) :- i in Range(3);' % ''.join(', ' + c for c in cols))
+    lines.append('Other(H(F(i), i)) :- i in Range(2);')
+    text = '\n'.join(lines) + '\n'
+    preds = ['Test', 'Other']
+  elif kind == 'duck_stop':
+    # DuckDB: one to three recursive components (independent or stacked), each run to a stop
+    # condition or to a depth, in the default (diamond) or the iterative mode
+    names = r.sample(['A', 'B', 'Reach', 'Dist', 'N', 'Walk', 'Zed', 'Q', 'Kite', 'M'], r.choice([1, 2, 2, 3]))
+    lines = ['@Engine("duckdb");']
+    body = []
+    prev = None
+    for i, nm in enumerate(names):
+      bound = r.randint(3, 9)
+      step = r.choice([1, 2])
+      depth = r.choice([-1, -1, 5, 30])
+      stop = r.random() < 0.75
+      mode = r.choice(['', '', ', mode: "diamond"', ', mode: "iterative"'])
+      lines.append('@Recursive(%s, %d%s%s);' % (nm, depth, ', stop: Stop%s' % nm if stop else '', mode))
+      if prev and r.random() < 0.4:
+        body.append('%s(x) distinct :- %s(x), x < 2;' % (nm, prev))      # stacked on the previous component
+      else:
+        body.append('%s(0) distinct;' % nm)
+      body.append('%s(x + %d) distinct :- %s(x), x < %d;' % (nm, step, nm, bound))
+      if stop:
+        body.append('Stop%s() :- %s(x), x >= %d;' % (nm, nm, bound))
+      prev = nm
+    if len(names) > 1:
+      body.append('T(%s) :- %s;' % (', '.join('x%d' % i for i in range(len(names))),
+                                    ', '.join('%s(x%d)' % (nm, i) for i, nm in enumerate(names))))
+    else:
+      body.append('T(x) :- %s(x);' % names[0])
+    r.shuffle(body)
+    text = '\n'.join(lines + body) + '\n'
+    preds = ['T'] + names[:2]
   elif kind == 'typed':
     # typed dialect with several record types whose descriptions are equally long, so that
     # nothing but an explicit tie-break fixes the order of their CREATE TYPE statements
